@@ -117,7 +117,8 @@ fn bdl_schedule_doc(ends: &[u32], week_names: &[&str], days7: &[usize], day_sing
             s += &format!("\"D{i}\" = DAY-SCHEDULE-PD\n  TYPE  = FRACTION\n  VALUES  = ( {})\n  ..\n", SINGLE_DAY_VALUE);
         } else {
             let vals: Vec<String> = (0..24).map(|h| day_value_text(h, i)).collect();
-            s += &format!("\"D{i}\" = DAY-SCHEDULE-PD\n  TYPE  = FRACTION\n  VALUES  = ( {})\n  ..\n", vals.join(", "));
+            // (the last one is declared ON/OFF and still carries fractions: the written values are the values)
+            s += &format!("\"D{i}\" = DAY-SCHEDULE-PD\n  TYPE  = {}\n  VALUES  = ( {})\n  ..\n", if i == 2 { "\"ON/OFF\"" } else { "FRACTION" }, vals.join(", "));
         }
     }
     let names: Vec<String> = days7.iter().map(|d| format!("\"D{d}\"")).collect();
@@ -517,7 +518,7 @@ pub fn run(ctx: &Ctx) -> i32 {
     ctx.nontriv(tot);
     ctx.finish(
         "model_checking",
-        "(a) SchedulesDb::get_year_as_day_sch on all 1-, 2- and 3-period partitions of 365 days (1 + 364 + 66066) x weekly patterns {7 distinct days, 5+2, one day x7, 1+1+5} per period (all 4^k combinations; 4 fixed combinations for 3 periods in quick), the 12 calendar months and all 2^11 merges of adjacent months: day n takes slot n mod 7 of its period's week, and for every 16th case the history expand -> weekly schedules edited in place (also on a clone) -> expand; (b) BDL SCHEDULE-PD / WEEK-SCHEDULE-PD / DAY-SCHEDULE-PD documents through Data::new + Model::try_from: every end date 1..365, every pair (d,31 Dec), every triple (a,b,31 Dec) (every 11th in quick), weeks A,B,A or A,A,B by period (compared as a partition: consecutive periods on one week count as one stretch), all 3^7 weekly name lists, daily lists of 24 values (written with one to four decimals) and of 1 value (0.004): period lengths from a calendar table, runs cover 7 days, 24 values equal to the written ones, weekday alignment; (c) occupancy on 1..3 spaces x kind x inside x multiplier x all set partitions of schedule sharing x daily profiles {zero, one, morning, evening, 1e-6, negative} (4..6 spaces: star/chain): (the last of two or more loads definitions has lighting and equipment but no occupancy schedule): occupied hours = count of hours with any non-zero occupancy, mean load = area-weighted mean of schedule-averaged loads; all cases distinct by construction",
+        "(a) SchedulesDb::get_year_as_day_sch on all 1-, 2- and 3-period partitions of 365 days (1 + 364 + 66066) x weekly patterns {7 distinct days, 5+2, one day x7, 1+1+5} per period (all 4^k combinations; 4 fixed combinations for 3 periods in quick), the 12 calendar months and all 2^11 merges of adjacent months: day n takes slot n mod 7 of its period's week, and for every 16th case the history expand -> weekly schedules edited in place (also on a clone) -> expand; (b) BDL SCHEDULE-PD / WEEK-SCHEDULE-PD / DAY-SCHEDULE-PD documents through Data::new + Model::try_from: every end date 1..365, every pair (d,31 Dec), every triple (a,b,31 Dec) (every 11th in quick), weeks A,B,A or A,A,B by period (compared as a partition: consecutive periods on one week count as one stretch), all 3^7 weekly name lists, daily lists of 24 values (written with one to four decimals; one of the three declared ON/OFF) and of 1 value (0.004): period lengths from a calendar table, runs cover 7 days, 24 values equal to the written ones, weekday alignment; (c) occupancy on 1..3 spaces x kind x inside x multiplier x all set partitions of schedule sharing x daily profiles {zero, one, morning, evening, 1e-6, negative} (4..6 spaces: star/chain): (the last of two or more loads definitions has lighting and equipment but no occupancy schedule): occupied hours = count of hours with any non-zero occupancy, mean load = area-weighted mean of schedule-averaged loads; all cases distinct by construction",
         true,
         json!({}),
     )
